@@ -114,24 +114,27 @@ func c09Format4(r *run.Run) {
 		})
 
 	r.Explore(explore.Config{Name: "C09.format4-runs"},
-		"run structures [run a][gap g][run b] (a,b in 1..6, g in 0..7, same/different delta, optional constant run) at offsets {0,100,0xFFF0}, with and without code 0xFFFF",
+		"run structures [run a][gap g][run b] (a,b in 1..6, g in 0..7, same/different delta, optional constant run) at offsets {0,100,0xFFF0}, glyph ids from {20, 0xF000, 0x8000, 0x7FFF, 0xFFF8, 1} (deltas that wrap around 16 bits in both directions), with and without code 0xFFFF",
 		func(c *explore.Ctx) {
 			base := explore.Pick(c, "offset", uint32(0), uint32(100), uint32(0xFFF0))
 			a := 1 + c.Choose(6, "run a")
 			g := c.Choose(8, "gap")
 			b := 1 + c.Choose(6, "run b")
 			kind := c.Choose(3, "second run kind")
+			// glyph ids of the first run: small ones, ids that lie 0x8000 or more above / below the code
+			// (the 16-bit delta arithmetic wraps around in both directions), and the top of the glyph range
+			gbase := explore.Pick(c, "glyph id of the first run", uint16(20), uint16(0xF000), uint16(0x8000), uint16(0x7FFF), uint16(0xFFF8), uint16(1))
 			m := map[uint32]uint16{}
 			code := base
 			for i := 0; i < a && code <= 0xFFFF; i++ {
-				m[code] = uint16(20 + i)
+				m[code] = gbase + uint16(i)
 				code++
 			}
 			code += uint32(g)
 			for i := 0; i < b && code <= 0xFFFF; i++ {
 				switch kind {
 				case 0:
-					m[code] = uint16(20 + a + g + i) // same delta as run a
+					m[code] = gbase + uint16(a+g+i) // same delta as run a
 				case 1:
 					m[code] = uint16(500 + 3*i) // irregular: needs glyphIdArray
 				default:
@@ -230,6 +233,64 @@ func c09Format12(r *run.Run) {
 					c.Fail("C09.format12-lib", "window", "library maps %#x to %d, want %d (%s)", p, got, m[p], fmtMap(m))
 					return
 				}
+			}
+		})
+	r.Explore(explore.Config{Name: "C09.format12-sizes"},
+		"format 12 maps with {1, 255, 256, 65535, 65536} entries (the property's bound; the reader refuses larger maps) laid out as one group, as groups of two codes with gaps, or as single codes (one group per entry), starting at code 0 / 0x20 / 0x10000: the subtable written by Encode is accepted by the library and by the specification decoder, and every entry, the codes next to the ends and code 0 decode to the glyph written",
+		func(c *explore.Ctx) {
+			n := explore.Pick(c, "entries", 1, 255, 256, 65535, 65536)
+			layout := c.Choose(3, "layout")
+			start := explore.Pick(c, "first code", uint32(0), uint32(0x20), uint32(0x10000))
+			f12 := cmap.Format12{}
+			code := start
+			for i := 0; i < n; i++ {
+				f12[code] = glyph.ID(1 + i%65535)
+				switch layout {
+				case 0:
+					code++
+				case 1:
+					code += 1 + uint32(i%2)
+				default:
+					code += 2
+				}
+			}
+			last := code
+			desc := fmt.Sprintf("%d entries from %#x, layout %d", n, start, layout)
+			c.Sample(func() any { return desc })
+			c.Nontrivial()
+			enc := f12.Encode(0)
+			c.Outcome(len(enc), desc)
+			ref, err := refcmap.Decode(enc)
+			if err != nil {
+				c.Fail("C09.format12-ref", "sizes", "specification decoder rejects Encode output: %v (%s)", err, desc)
+				return
+			}
+			tab := cmap.Table{{PlatformID: 3, EncodingID: 10}: enc}
+			sub, err := tab.Get(cmap.Key{PlatformID: 3, EncodingID: 10})
+			if err != nil {
+				c.Fail("C09.format12-lib", fmt.Sprintf("sizes / %d entries", n), "the library rejects the subtable its encoder wrote: %v (%s, %d bytes)", err, desc, len(enc))
+				return
+			}
+			check := func(code uint32) bool {
+				want := uint16(f12[code])
+				if got := uint16(sub.Lookup(rune(code))); got != want || ref[code] != want {
+					c.Fail("C09.format12-lib", "sizes / lookup", "code %#x: library %d, specification decoder %d, written %d (%s)", code, got, ref[code], want, desc)
+					return false
+				}
+				return true
+			}
+			for code := range f12 {
+				if !check(code) {
+					return
+				}
+			}
+			for _, code := range []uint32{0, start + 1, last, last + 1, last + 2, 0x10FFFF} {
+				if code <= 0x10FFFF && !check(code) {
+					return
+				}
+			}
+			if start > 0 && !check(start-1) {
+				return
 			}
 		})
 }
